@@ -1,7 +1,7 @@
 (* C20 — property theorems only.  Every proof is `exact <lemma>` or a closed computation on a witness. *)
 From Coq Require Import List NArith ZArith Bool.
 Import ListNotations.
-From VF Require Import C20.Model C20.Proofs C20.ProofsB C20.ProofsC.
+From VF Require Import C20.Model C20.Proofs C20.ProofsB C20.ProofsC C20.ProofsD C20.ProofsE.
 Local Open Scope N_scope.
 
 (* FULL STATEMENT, verifier side (repaired code).  For every definition (any descriptors with distinct ids, any
@@ -104,6 +104,20 @@ Theorem iterator_sound : forall r it ex it' sol,
 Proof. exact next_sound. Qed.
 Print Assumptions iterator_sound.
 
+(* A descriptor passed in the exclude list of a Next call is in no set returned by that call or by any later call,
+   whatever the later exclude lists are (iter_run = any sequence of Next calls). *)
+Theorem iterator_excluded_never_reappears : forall r it ex exs outs x,
+  iter_run r it (ex :: exs) = Some outs -> In x ex -> forall sol, In sol outs -> ~ In x sol.
+Proof. exact excluded_gone. Qed.
+Print Assumptions iterator_excluded_never_reappears.
+
+(* Termination of the model's iterator: on an iterator made by NewBitsetIterator every sequence of Next calls with
+   any exclude lists runs to the end; the fuel S(2^|descs|) of the search is never exhausted (the state stays below
+   2^|descs| through the exclusion arithmetic). *)
+Theorem iterator_never_out_of_fuel : forall r descs exs, exists outs, iter_run r (new_iter r descs) exs = Some outs.
+Proof. intros r descs exs. apply iter_run_total. apply new_iter_wf. Qed.
+Print Assumptions iterator_never_out_of_fuel.
+
 (* the selection CreateVP makes satisfies the definition's requirement logic, and only evaluated descriptors
    with at least one credential are in it *)
 Theorem holder_selection_satisfies_requirement : forall v p creds fmt sel,
@@ -198,3 +212,9 @@ Example sdjwt_nonvacuous :
             map c_attrs (vp_creds x) = [[(501, VStr 2)]; [(1, VStr 1); (2, VNum 2); (501, VStr 2); (502, VArr 7)]] /\
             exists l, verifier_match Fixed p false x = MOk l /\ map fst l = [1; 2].
 Proof. cbv zeta. eexists. split; [vm_compute; reflexivity|]. vm_compute. split; [reflexivity|]. eexists. split; reflexivity. Qed.
+
+(* non-vacuity, iterator: pick 1 of [all of {1,2,3}; all of {4}], descriptor 3 turns out unsatisfiable *)
+Example iterator_nonvacuous :
+  let r := Req [] [Req [1; 2; 3] [] 3 0 0; Req [4] [] 1 0 0] 1 0 0 in
+  iter_run r (new_iter r [1; 2; 3; 4]) [[]; [3]; []] = Some [[1; 2; 3]; [4]; [1; 4]].
+Proof. vm_compute. reflexivity. Qed.
